@@ -105,7 +105,7 @@ func (sms *sqlMetadataStore) listObjects(ctx context.Context, tx *sql.Tx, bucket
 			if delimiter == "" || !strings.Contains(keyWithoutPrefix, delimiter) {
 				objects = append(objects, metadatastore.Object{
 					Key:               objectEntity.Key,
-					LastModified:      objectEntity.UpdatedAt,
+					LastModified:      objectEntity.CreatedAt,
 					VersionID:         objectEntity.VersionID,
 					IsDeleteMarker:    objectEntity.IsDeleteMarker,
 					ETag:              objectEntity.ETag,
@@ -268,7 +268,7 @@ func (sms *sqlMetadataStore) ListObjectVersions(ctx context.Context, tx *sql.Tx,
 				VersionID:      versionID,
 				IsDeleteMarker: entity.IsDeleteMarker,
 				IsLatest:       entity.IsLatest,
-				LastModified:   entity.UpdatedAt,
+				LastModified:   entity.CreatedAt,
 				Size:           entity.Size,
 				ETag:           &entity.ETag,
 				StorageClass:   entity.StorageClass,
@@ -345,7 +345,7 @@ func (sms *sqlMetadataStore) HeadObject(ctx context.Context, tx *sql.Tx, bucketN
 	return &metadatastore.Object{
 		Key:               key,
 		ContentType:       objectEntity.ContentType,
-		LastModified:      objectEntity.UpdatedAt,
+		LastModified:      objectEntity.CreatedAt,
 		VersionID:         objectEntity.VersionID,
 		IsDeleteMarker:    objectEntity.IsDeleteMarker,
 		ETag:              objectEntity.ETag,
@@ -405,5 +405,5 @@ func (sms *sqlMetadataStore) HeadObjectVersion(ctx context.Context, tx *sql.Tx, 
 		return nil, err
 	}
 
-	return &metadatastore.Object{Key: key, ContentType: objectEntity.ContentType, LastModified: objectEntity.UpdatedAt, VersionID: objectEntity.VersionID, IsDeleteMarker: objectEntity.IsDeleteMarker, ETag: objectEntity.ETag, ChecksumCRC32: objectEntity.ChecksumCRC32, ChecksumCRC32C: objectEntity.ChecksumCRC32C, ChecksumCRC64NVME: objectEntity.ChecksumCRC64NVME, ChecksumSHA1: objectEntity.ChecksumSHA1, ChecksumSHA256: objectEntity.ChecksumSHA256, ChecksumType: objectEntity.ChecksumType, Size: objectEntity.Size, StorageClass: objectEntity.StorageClass, Parts: parts, Tags: tags, Metadata: metadata}, nil
+	return &metadatastore.Object{Key: key, ContentType: objectEntity.ContentType, LastModified: objectEntity.CreatedAt, VersionID: objectEntity.VersionID, IsDeleteMarker: objectEntity.IsDeleteMarker, ETag: objectEntity.ETag, ChecksumCRC32: objectEntity.ChecksumCRC32, ChecksumCRC32C: objectEntity.ChecksumCRC32C, ChecksumCRC64NVME: objectEntity.ChecksumCRC64NVME, ChecksumSHA1: objectEntity.ChecksumSHA1, ChecksumSHA256: objectEntity.ChecksumSHA256, ChecksumType: objectEntity.ChecksumType, Size: objectEntity.Size, StorageClass: objectEntity.StorageClass, Parts: parts, Tags: tags, Metadata: metadata}, nil
 }
